@@ -96,9 +96,13 @@ pub(crate) fn c08_oracle(c: &Bytes, st: &mut Stats) -> Verdict {
                 check_accepted("C08", name, Some(*pt), *min, *unit, *fixed, b, &h, true)?;
             }
             Err(_) => {
-                // rejection side is not vacuous: count strings that are framed for this type except for one attribute
+                // the rejection side is not vacuous: strings that carry this parser's type byte and were rejected,
+                // by the first framing condition the reference finds violated (or none: a body-level rejection)
                 if b.len() >= 4 && b[1] == *pt {
-                    st.label("rejected-with-matching-type-byte");
+                    match ref_framing(b, Some(*pt), *min) {
+                        Framing::Bad(why) => st.label(&format!("rejected-with-matching-type-byte:{why}")),
+                        _ => st.label("rejected-with-matching-type-byte:framing fine (count / body level)"),
+                    }
                 }
             }
         }
